@@ -283,6 +283,8 @@ def timeout_base(rng: random.Random, i: int) -> dict:
     for h in sc['handlers']:
         if h['kind'][0] == 'a' and rng.random() < 0.25:
             h['cleanup'] = rng.choice([0.01, 0.15, 0.4])  # needs this long to unwind after being cancelled
+        if h['kind'][0] == 'a' and rng.random() < 0.2:
+            h['cleanup_disp'] = [rng.randrange(2, 4), rng.randrange(nb)]  # dispatches an event from its except-CancelledError block
     # the root is the first actor's first dispatch: make it level 0 on bus 0, awaited, then a later event + idle
     sc['actors'] = [[['disp', 0, 0, 'await', 0, {}]], [['sleep', rng.choice([0.0, 0.05, 0.3])], ['disp', 1, rng.randrange(nb), 'await', 0, {}]]]
     # make sure the root has at least one awaiting handler with a child that itself awaits a grandchild
@@ -312,6 +314,51 @@ def timeout_derive(sc: dict, t: float, rng: random.Random):
                 op[5] = {'timeout': t}
                 break
         yield sc
+
+
+def late_on_scenario(rng: random.Random, i: int) -> dict:
+    """Handlers registered while the program is running - by class, by name and as wildcards - with events of their type
+    processed before, queued across, and dispatched after the registration."""
+    c = cfg(nb=(1, 2), p_wild=0.3, p_strpat=0.3, handlers_per=(1, 2, 3), n_actors=(2, 3), actor_ops=(3, 7), p_par=0.2)
+    sc = random_scenario(rng, c)
+    hs = sc['handlers']
+    idx = [k for k, h in enumerate(hs) if 'same_as' not in h and not any(h2.get('same_as') == k for h2 in hs)]
+    ops = []
+    for k in rng.sample(idx, min(len(idx), rng.randint(1, 3))):
+        hs[k]['late'] = True
+        if rng.random() < 0.5 and not any(op[0] in ('disp', 'many', 'recurse', 'spawn', 'redisp') for op in hs[k]['prog']):
+            hs[k]['pat'] = '*'  # (only handlers that dispatch nothing: a wildcard handler that dispatches feeds itself for ever)
+        ops += [['sleep', rng.choice([0, 0.01, 0.05, 0.1, 0.3])], ['on', k]]
+        pat = hs[k]['pat']
+        t = pat if isinstance(pat, int) else (int(pat[1:]) if isinstance(pat, str) and pat[:1] == 'E' and pat[1:].isdigit() else rng.randrange(3))
+        for _ in range(rng.randint(1, 3)):
+            ops.append(['disp', t, hs[k]['bus'], rng.choice(['fire', 'await']), rng.choice([0, 0.01, 0.05]), {}])
+    sc['actors'].append(ops)
+    return sc
+
+
+def waitfor_base(rng: random.Random, i: int) -> dict:
+    """Handlers that await children (and grandchildren) inline, some events with handler timeouts of their own; the derived
+    scenarios bound those in-handler awaits with asyncio.wait_for."""
+    sc = timeout_base(rng, i)
+    if rng.random() < 0.4:
+        sc['actors'][0][0][5] = {'timeout': rng.choice([0.12, 0.3, 0.8, 5.0])}
+    sc['actors'][1] += [['sleep', rng.choice([0.0, 0.2])], ['idle', rng.randrange(len(sc['buses'])), rng.choice([None, None, 0.5])]]
+    return sc
+
+
+def waitfor_derive(sc: dict, t: float, rng: random.Random):
+    if t <= 1e-9:
+        return
+    ops = [op for h in sc['handlers'] for op in h['prog'] if op[0] == 'disp' and op[3] in ('await', 'await2')]
+    if not ops:
+        return
+    chosen = ops if rng.random() < 0.5 else [rng.choice(ops)]
+    for op in chosen:
+        while len(op) < 6:
+            op.append(None)
+        op[5] = dict(op[5] or {}, wf_at=t)
+    yield sc
 
 
 def expect_base(rng: random.Random, i: int) -> dict:
